@@ -31,7 +31,7 @@ impl Prop for C10 {
         "C10"
     }
     fn rule(&self) -> String {
-        "generated bit-vector transition systems (<= 6 state bits quick / 7 thorough, inputs, constraints, init over earlier states or inputs, constant and next-less states) x generalisation {unsat cores on, off} x solver profile (bitwuzla, z3, cvc5 with check-sat-assuming; yices-smt2 with cores disabled as the tool does) x unsat-core mode of the reference solver {z3's core, all assumptions, deletion-minimal, core plus random extras} x model seed; two configurations per system. Oracle: full explicit-state reachability fixpoint of the reference simulator: Success iff no bad state is reachable at any depth, Fail iff one is; Unknown, an error or a panic is a failure; witnesses are validated by replay. Systems whose shallowest bad state is deeper than 10 steps, or safe systems with a diameter above 16, are excluded and counted (PDR needs a frame per step and every query runs through the reference solver); a case exceeding 420 s (slowest observed on an idle machine: 12 s quick, 50 s thorough; a safe 7-bit system of diameter 32 needed more than 420 s and led to the diameter bound) is reported as inconclusive (exit 2), not as a violation. Non-trivial: safe system with >= 3 reachable states and diameter >= 2, or unsafe at depth >= 2; distinct by hash of (system, configuration).".into()
+        "generated bit-vector transition systems (<= 6 state bits quick / 7 thorough, inputs, constraints, init over earlier states or inputs, constant and next-less states) x generalisation {unsat cores on, off} x solver profile (bitwuzla, z3, cvc5 with check-sat-assuming; yices-smt2 with cores disabled as the tool does) x unsat-core mode of the reference solver {z3's core, all assumptions, deletion-minimal, core plus random extras} x model seed; two configurations per system. Oracle: full explicit-state reachability fixpoint of the reference simulator: Success iff no bad state is reachable at any depth, Fail iff one is; Unknown, an error or a panic is a failure; witnesses are validated by replay. Systems whose shallowest bad state is deeper than 8 steps, or safe systems with a diameter above 12, are excluded and counted (PDR needs a frame per step and every query runs through the reference solver); a case exceeding 900 s (slowest observed on an idle machine: 12 s quick, 50 s thorough; a safe 7-bit system of diameter 32 and a depth-10 one needed more than 420 s on a machine with load 40, which led to the bounds) is reported as inconclusive (exit 2), not as a violation. Non-trivial: safe system with >= 3 reachable states and diameter >= 2, or unsafe at depth >= 2; distinct by hash of (system, configuration).".into()
     }
     fn assumptions(&self) -> Vec<String> {
         vec!["z3 4.8.12 behind the shim answers the tiny queries correctly; the shim's alternative cores are valid answers to get-unsat-assumptions (supersets of an unsat core / deletion-minimal subsets checked with z3)".into()]
@@ -46,7 +46,7 @@ impl Prop for C10 {
         true
     }
     fn case_time_limit(&self) -> u64 {
-        420
+        900
     }
     fn setup(&self, _tier: Tier) -> Result<(), String> {
         shim::install().map(|_| ())
@@ -69,7 +69,7 @@ impl Prop for C10 {
         // PDR needs at least as many frames as the counterexample is deep and every query goes through
         // the reference solver: very deep systems (chained counters reach depth 32+) take minutes.
         // They are outside the time budget of a case, not outside the property; counted.
-        let (max_depth, max_diam) = if tier == Tier::Quick { (10, 16) } else { (10, 16) };
+        let (max_depth, max_diam) = if tier == Tier::Quick { (8, 12) } else { (8, 12) };
         if min_bad.map(|d| d > max_depth).unwrap_or(false) || (min_bad.is_none() && reach.diameter > max_diam) {
             rec.exclude("counterexample depth / diameter beyond the per-case time budget");
             return Ok(());
